@@ -7,7 +7,7 @@
     *every* admissible view, i.e. every permutation of the indexed samples that
     is sorted by duration ([C05_admissible_meaning]). *)
 From Coq Require Import Permutation Sorted.
-From DivanV Require Import Base.Res Model.Stats Proofs.Stats Proofs.StatsProv Proofs.StatsSb.
+From DivanV Require Import Base.Res Model.Stats Proofs.Stats Proofs.StatsProv Proofs.StatsSb Proofs.StatsStore.
 Local Open Scope N_scope.
 
 Theorem C05_admissible_meaning : forall durs sv,
@@ -223,3 +223,39 @@ Theorem C05_sb_close_meaning : forall a b c d,
   (c * b <= a * d -> (a * d - c * b) * 10 ^ 12 <= c * b).
 Proof. exact xq_close_spec. Qed.
 Print Assumptions C05_sb_close_meaning.
+
+(** The counts stored for a per-input counter kind ([record_rounds]: model of
+    the recording loop as far as one kind is concerned; a round = (tuning?,
+    sample size, the input counts of each raw sample)).  Whatever was stored for
+    the kind before [input_counter] was called (a constant from the options or
+    from [Bencher::counter]), and however the rounds are split between tuning
+    and collecting: never a panic, the kind stays per-input, the number of
+    stored counts is the number of stored samples, and each is its own sample's
+    sum over the inputs / sample size. *)
+Theorem C05_counts_length : forall ci0 rounds,
+  Forall round_wf rounds ->
+  exists n ci, record_rounds (0%nat, set_input_counter ci0) rounds = Ok (n, ci) /\
+    ci_input ci = true /\
+    length (ci_counts ci) = n /\ n = length (kept_samples [] rounds) /\
+    ci_counts ci = map stored_value (kept_samples [] rounds).
+Proof. exact counts_length. Qed.
+Print Assumptions C05_counts_length.
+
+Theorem C05_stored_model_sb : forall ci0 rounds ssize n ci,
+  Forall round_wf rounds ->
+  Forall (fun p => fst p = ssize) (kept_samples [] rounds) ->
+  record_rounds (0%nat, set_input_counter ci0) rounds = Ok (n, ci) ->
+  stored_counts_sb ssize (map (fun p => sum_list (snd p)) (kept_samples [] rounds)) ci = true.
+Proof. exact stored_model_sb. Qed.
+Print Assumptions C05_stored_model_sb.
+
+(** Outside that theorem and wrong in the current code: [Bencher::counter] of
+    the same kind called after [input_counter], explicit sample size: the
+    constant stays as a stale first entry (4 counts for 3 samples), so each
+    sample reads its predecessor's count. *)
+Theorem C05_counter_after_input_counter_refuted :
+  record_rounds (0%nat, set_counter 3023 (set_input_counter {| ci_counts := []; ci_input := false |}))
+                [(false, 2, [[252; 726]; [432; 141]; [615; 321]])]
+  = Ok (3%nat, {| ci_counts := [3023; 489; 286; 468]; ci_input := true |}).
+Proof. exact counter_after_input_counter_is_stale. Qed.
+Print Assumptions C05_counter_after_input_counter_refuted.
